@@ -331,6 +331,10 @@ def make_agent_class():
 
         # -- callbacks
         def check_market_book(self, market, market_book):
+            if self.spec.get("reads_wall_clock") and hasattr(self.run.fw, "simulated_datetime"):
+                with self.run.fw.simulated_datetime.real_time() as real_dt:
+                    real_dt.utcnow()
+                self.run.res.probes["agent.real_time_block_used"] += 1
             self.calls.append(("check", market.market_id, market_book.publish_time_epoch))
             _dispatch("strategy_call", self, market, "check")
             self.run._maybe_raise(self, "check", market)
@@ -771,6 +775,11 @@ class BacktestRun:
         self._inject_count += 1
         if self._inject_count == inj["nth"]:
             self.res.faults["callback_exception.%s" % kind] += 1
+            if inj.get("in_real_time") and hasattr(self.fw, "simulated_datetime"):
+                # the documented helper for reading the wall clock during a simulation; the exception leaves its block
+                self.res.faults["callback_exception.inside_real_time_block"] += 1
+                with self.fw.simulated_datetime.real_time():
+                    raise ValueError("injected")
             if inj.get("flumine"):
                 raise _F["FlumineException"]("injected")
             raise ValueError("injected")
